@@ -241,7 +241,7 @@ func genRender(t *Tracer, m *Meta, tier string, seed int64) {
 			keys = keys[:maxN]
 		}
 		enc := renderEncs[r.Intn(len(renderEncs))]
-		o4 := all16[r.Intn(16)]
+		o4 := pickOpts(r, "C19", 1)[0] // explicit values and nil pointers
 		runRenderCase(t, m, &TrieCase{Keys: keys, Enc: enc, Vals: mkVals(r, "C19", enc, len(keys)), Opt4: o4})
 		m.class("family:" + fam)
 	}
